@@ -30,7 +30,7 @@ Idx == blk * BS + off + 1
 NVar == 3
 Fail(an, cl, k, var, ek, pk, pos) ==
     [an |-> an, cl |-> cl, k |-> k, var |-> var, ek |-> ek, pk |-> pk, pos |-> pos,
-     fl |-> (IF an = "deps" THEN Effective(RawSeq[k]) ELSE AllOff)]
+     fl |-> (IF an = "deps" THEN EffSeq[EffIx[k]] ELSE AllOff)]
 Skip(an, k, var) == Fail(an, "SKIP", k, var, "", "", 0)
 
 \* where does (a node ==-equal to) m sit in e: parent kind and child position of a
@@ -44,26 +44,29 @@ Where(e, m, P) ==
 
 DepsVerdicts(rec) ==
     LET e == rec.e
-        gotc == [j \in 1..Len(rec.rs) |->
-                    IF rec.rs[j].r = "ok" THEN CanonSet(SeqToSet(rec.rs[j].s)) ELSE {}]
+        gotc == TLCEval([j \in 1..Len(rec.rs) |->
+                    IF rec.rs[j].r = "ok" THEN CanonSet(SeqToSet(rec.rs[j].s)) ELSE {}])
+        P == TLCEval(Paths(e))
+        wantE == TLCEval([j \in 1..NEff |-> CanonSet(DepsIn(e, EffSeq[j], P))])
+        refE == TLCEval([j \in 1..NEff |-> DepsRefusalIn(e, EffSeq[j], P)])
         PerFlag(k) ==
-            LET fl == Effective(RawSeq[k])
-                refusal == DepsRefusalPossible(e, fl)
-                want == CanonSet(Deps(e, fl))
+            LET fl == EffSeq[EffIx[k]]
+                refusal == refE[EffIx[k]]
+                want == wantE[EffIx[k]]
                 Vd(var) ==
                     LET j == rec.ix[NVar * (k - 1) + var] r == rec.rs[j] IN
-                    IF refusal THEN Skip("deps", k, var)
-                    ELSE IF r.r = "err" THEN Fail("deps", "raised", k, var, r.v.e, "", 0)
-                    ELSE IF r.r # "ok" THEN Fail("deps", "bad-result", k, var, "", "", 0)
-                    ELSE IF gotc[j] = want THEN Fail("deps", "OK", k, var, "", "", 0)
+                    IF refusal THEN { Skip("deps", k, var) }
+                    ELSE IF r.r = "err" THEN { Fail("deps", "raised", k, var, r.v.e, "", 0) }
+                    ELSE IF r.r # "ok" THEN { Fail("deps", "bad-result", k, var, "", "", 0) }
+                    ELSE IF gotc[j] = want THEN { }                          \* OK
                     ELSE IF want \ gotc[j] # {} THEN
                         LET m == CHOOSE mm \in want \ gotc[j] : TRUE
-                            w == Where(e, m, VisiblePaths(e, fl))
-                        IN Fail("deps", "missing", k, var, m.t, w.pk, w.pos)
+                            w == Where(e, m, VisibleIn(e, fl, P))
+                        IN { Fail("deps", "missing", k, var, m.t, w.pk, w.pos) }
                     ELSE LET m == CHOOSE mm \in gotc[j] \ want : TRUE
-                             w == Where(e, m, Paths(e))
-                         IN Fail("deps", "extra", k, var, m.t, w.pk, w.pos)
-            IN { Vd(var) : var \in 1..NVar }
+                             w == Where(e, m, P)
+                         IN { Fail("deps", "extra", k, var, m.t, w.pk, w.pos) }
+            IN UNION { Vd(var) : var \in 1..NVar }
     IN UNION { PerFlag(k) : k \in 1..NRaw }
 
 CountVerdict(an, var, r, ambiguous, refusal, want) ==
@@ -78,7 +81,7 @@ NodesVerdicts(rec) ==
 
 FlopsVerdicts(rec) ==
     LET e == rec.e
-        refusal == KindsIn(e) \cap FlopsUnsupported # {} \/ (\E p \in Paths(e) : At(e, p).t = "None")
+        refusal == FlopsRefusalPossible(e)
     IN { CountVerdict("flops", 1, rec.fl[1], FlopsAmbiguous(e), refusal, Flops(e)),
          CountVerdict("flops", 2, rec.fl[2], FlopsAmbiguous(e), refusal, Flops(e)),
          CountVerdict("cseflops", 3, rec.fl[3], CSEFlopsAmbiguous(e), refusal, CSEFlops(e)) }
